@@ -219,6 +219,13 @@ func cmdCheck(args []string) int {
 		}
 	}
 	sort.Slice(fcs, func(i, j int) bool { return fcs[i].Key < fcs[j].Key })
+	// packages whose contract files declare predicates / ghost state are loaded from source as well, so that their
+	// unexported identifiers resolve in specs evaluated from other packages
+	for _, p := range cs.Preds {
+		if p.PkgPath != "" && !contains(pk, p.PkgPath) && len(fcs) > 0 && *module == "" {
+			pk = append(pk, p.PkgPath)
+		}
+	}
 	sort.Strings(pk)
 	if len(fcs) == 0 {
 		fmt.Printf("ENGINE-ERROR no-contracts: no function under contract serves %s\n", *prop)
